@@ -172,8 +172,8 @@ PROPS["C14"] = dict(
     level_note="the predicate is the statement itself; no reference model is needed beyond the flag/return relation",
     rule=("cases = (configuration, first cause or fresh, clear?, second cause); evaluations = calls judged; non-trivial = every "
           "executed history (distinct by descriptor); both failing and succeeding calls occur (counters)"),
-    runs=lambda tier: [dict(harness="seq", args=["--param", 0]), dict(harness="seq", args=["--param", 1])],
-    bound=dict(quick="all ordered pairs of causes per configuration", thorough="same"),
+    runs=lambda tier: [dict(harness="seq", args=["--param", 0]), dict(harness="seq", args=["--param", 1]), dict(harness="jwk", args=["--param", 0])],
+    bound=dict(quick="all ordered pairs of causes per configuration; JWK single-deviation matrix", thorough="same plus all pairs of JWK deviations"),
     assumptions=["causes inside the crypto libraries (e.g. provider-internal allocation failure) are not reachable from outside and not catalogued"],
     budget_s=dict(quick=600, thorough=1200),
 )
@@ -234,4 +234,24 @@ PROPS["C08"] = dict(
     bound=dict(quick="all pool keys x all single and pairwise dimension sweeps; oct 1-512", thorough="plus the full product for 6 representative keys"),
     assumptions=["GnuTLS has no JWK importer of its own (it uses the OpenSSL one), so only provider 0 is run"],
     budget_s=dict(quick=600, thorough=3000),
+)
+
+# ---------------------------------------------------------------- C17
+PROPS["C17"] = dict(
+    level="fault_enumeration",
+    technique="exhaustive single-fault enumeration: for every scenario, every allocation index k (through jwt_set_alloc) fails once; results compared call by call with the fault-free run",
+    level_text=("27 scenarios covering key loading (every kty, sets, bad keys, files), builders (HS256, RS256, EdDSA, ES256, none, "
+                "callbacks, all setter/getter types), and checkers (valid/expired/bad/wrong-alg/malformed/unsigned tokens, all key "
+                "types, key-selecting and token-mutating callbacks) are first run fault-free with a counting allocator; then for "
+                "every k = 1..N the k-th request returns NULL.  This is exactly the property's quantifier (any single allocation), "
+                "so bound 1 is the whole space.  Calls are compared in order up to and including the first one that reports failure "
+                "through its documented channel; a differing result without a reported failure is a violation (wrong accept, token "
+                "differs, key differs), as is any crash or sanitizer report"),
+    level_note="allocations inside OpenSSL/GnuTLS do not pass through jwt_set_alloc and are not faulted; jansson's do (by design of jwt_set_alloc)",
+    rule=("cases = (scenario, k); evaluations = faulty runs; every case is non-trivial when the fault was delivered (counter "
+          "faults_delivered); finding key = innermost libjwt function > callee at the failing allocation | symptom"),
+    runs=_both_providers("oom"),
+    bound=dict(quick="every allocation index of every scenario, both providers", thorough="same"),
+    assumptions=["multi-fault sequences are not explored: the property promises nothing for them"],
+    budget_s=dict(quick=900, thorough=1800),
 )
